@@ -32,12 +32,12 @@ META = dict(
 
 NODE_KEYS = ("chain", "pool")
 WALLET_KEYS = ("bal", "coins")
-INTERNAL_KEYS = ("known", "aband", "conflicted")
+INTERNAL_KEYS = ("known", "aband", "conflicted", "pconflicted")
 
 
 def norm(x):
     return dict(chain=list(x["chain"]), pool=sorted(x["pool"]), bal=dict(x["bal"]), coins=sorted(x["coins"]), known=sorted(x["known"]),
-                aband=sorted(x["aband"]), conflicted=sorted(x["conflicted"]))
+                aband=sorted(x["aband"]), conflicted=sorted(x["conflicted"]), pconflicted=sorted(x.get("pconflicted", [])))
 
 
 def run(ctx):
@@ -51,9 +51,14 @@ def run(ctx):
 
     with concurrent.futures.ThreadPoolExecutor(max_workers=2) as ex:
         fut = ex.submit(mc) if only != "replay" else None
-        num, depth = (60, 16) if quick else (1500, 20)
-        r = ctx.tlc(SPEC, SPEC, "Sim_q.cfg" if quick else "Sim_t.cfg", simulate=(num, depth), name="sim", env=_wallet.LIGHT_JVM, timeout=2700)
-        tests = vflib.sim_behaviours(r.emit_path)
+        # several single-threaded simulations side by side (different -aril, same -seed)
+        nsim, num, depth = (3, 40, 16) if quick else (4, 450, 20)
+        def sim(i):
+            r = ctx.tlc(SPEC, SPEC, "Sim_q.cfg" if quick else "Sim_t.cfg", simulate=(num, depth), name="sim%d" % i, env=_wallet.LIGHT_JVM, timeout=2700,
+                        extra_args=["-aril", str(i)])
+            return vflib.sim_behaviours(r.emit_path)
+        with concurrent.futures.ThreadPoolExecutor(max_workers=nsim) as ex2:
+            tests = [t for ts in ex2.map(sim, range(nsim)) for t in ts]
         ctx.log("simulation: %d behaviours, %d steps" % (len(tests), sum(len(t["steps"]) for t in tests)))
         res = ctx.run_harness(binary, "balance", tests, args=[ctx.seed], name="balance", env={"RANDOM_CTX_SEED": _wallet.seed_hex(ctx)})
         if fut:
@@ -82,6 +87,8 @@ def run(ctx):
                 ev["states_with_conflicted_tx"] += 1
             if e["aband"]:
                 ev["states_with_abandoned_tx"] += 1
+            if [k for k in e["pconflicted"] if k not in e["aband"] and k not in e["conflicted"]]:
+                ev["states_with_mempool_conflicted_tx"] += 1
             if e["bal"]["immature"]:
                 ev["states_with_immature"] += 1
             if e["bal"]["pending"]:
@@ -124,7 +131,7 @@ def run(ctx):
                           dict(adapter="walletnode", mode="balance", args=[ctx.seed], case=dict(init=t["init"], steps=t["steps"][:si + 1]), observed=o["obs"]))
     ctx.extra["events"] = dict(sorted(ev.items()))
     need = ["act:submit", "act:send", "act:mine", "act:invalidate", "act:reconsider", "act:abandon", "act:evict", "states_with_conflicted_tx", "states_with_abandoned_tx",
-            "states_with_immature", "states_with_untrusted_pending", "states_with_mature_coinbase_coin"]
+            "states_with_mempool_conflicted_tx", "states_with_immature", "states_with_untrusted_pending", "states_with_mature_coinbase_coin"]
     missing = [k for k in need if not ev.get(k)]
     if missing and not ctx.violations:
         raise vflib.InfraError("vacuity: the simulated behaviours never produced %s (events: %s)" % (missing, dict(ev)))
